@@ -14,14 +14,15 @@ from ..specgen import SpecGen, normalise_cond, normalise_path
 from ..describe import describe_part, describe_path, describe_rule, describe_cond, Inert0
 from ..pathterms import PathT, Prim
 from ..terms import valida
+from ..ruleterms import RuleT, Tags
 from .c09 import IMPORTS
 
 PROP = "C10"
 THEOREMS = ["C10_suffixes_commute", "C10_suffix_alone", "C10_shorthand_is_long_form", "C10_part_long_forms", "C10_part_spec_lists",
             "C10_path_strings", "C10_path_string_tokens", "C10_rule_spec_fields", "C10_rule_spec_builds_api_rule",
-            "C10_doc_one_normal_form", "C10_doc_normalisation_idempotent", "C10_cast_block_shapes"]
+            "C10_doc_one_normal_form", "C10_doc_normalisation_idempotent", "C10_cast_block_shapes", "C10_rule_spec_with_nested_path_arguments"]
 FACT_LEMMAS = ["C10Proof / C09Proof table facts (closed computations on the generated tables)"]
-DEPENDS = ['Py.v', 'Lang.v', 'Defs.v', 'Cond.v', 'Dsl.v', 'Check.v', 'DocSem.v', 'Inst.v', 'Gen/TablesGen.v', 'Gen/CallablesGen.v', 'Gen/SpecGen.v', 'Path.v', 'Cast.v', 'Str.v', 'SpecDefs.v', 'RuleDefs.v', 'Rule.v', 'Spec.v', 'SpecIO.v', 'Eq.v', 'FromStr.v', 'RunSpec.v', 'SpecSpell.v', 'RuleTerms.v', 'Proofs/Tie.v', 'Proofs/PyFacts.v', 'Proofs/C02Proof.v', 'Proofs/RuleProof.v', 'Proofs/C09Proof.v', 'Proofs/C10Proof.v', 'Proofs/C11Proof.v', 'Proofs/C13Proof.v', 'Proofs/C14Proof.v', 'Proofs/C10RuleProof.v', 'Properties/C10.v']
+DEPENDS = ['Py.v', 'Lang.v', 'Defs.v', 'Cond.v', 'Dsl.v', 'Check.v', 'DocSem.v', 'Inst.v', 'Gen/TablesGen.v', 'Gen/CallablesGen.v', 'Gen/SpecGen.v', 'Path.v', 'Cast.v', 'Str.v', 'SpecDefs.v', 'RuleDefs.v', 'Rule.v', 'Spec.v', 'SpecIO.v', 'Eq.v', 'FromStr.v', 'RunSpec.v', 'SpecSpell.v', 'RuleTerms.v', 'Proofs/Tie.v', 'Proofs/PyFacts.v', 'Proofs/C02Proof.v', 'Proofs/RuleProof.v', 'Proofs/C09Proof.v', 'Proofs/C10Proof.v', 'Proofs/C11Proof.v', 'Proofs/C13Proof.v', 'Proofs/C14Proof.v', 'Proofs/C10RuleProof.v', 'NestedArgs.v', 'NestedIO.v', 'NestedRuleIO.v', 'NestedSpell.v', 'RunNestedRule.v', 'Proofs/C11NestedProof.v', 'Proofs/C13NestedProof.v', 'Proofs/C09NestedProof.v', 'Proofs/C10NestedProof.v', 'Properties/C10.v']
 ASSUMPTIONS = ["Layer P models CPython's operators (pysem)", "float(str) in DataPath.from_str is an oracle (CPython's own outcome per token)",
                "YAML text -> Python structure is ruamel.yaml's and is outside the model (exercised by correspondence only)"]
 
@@ -276,6 +277,53 @@ def run(tier, seed, model_ok, spec_ok, replay=None):
                     except Exception:
                         pass
     k_bad, o_bad, nk, no, err = run_passes("c10", IMPORTS, cases, model_ok, spec_ok)
+    # rule specs whose condition has NESTED data-path arguments: Rule.from_spec(spec) == the API-built rule (NestedRuleIO / RunNestedRule)
+    from ..nestedgen import nested_tree, NESTED_IMPORTS
+    from .c17 import enc_narg
+    CASTS_N = {"bool": "(TStr, CastStrBool)", "int": "(TStr, CastStrInt)"}
+    ncases = []
+    for _ in range(120 if tier == "quick" else 3000):
+        doc = g.document(3, 4)
+        base = rg.rule(doc, cast_p=0.4)
+        normalise_path(limit_parts(base.path))
+        cond = nested_tree(g, pg, doc, classes=("Value",))
+        psx = [sg.part_spec(p) for p in base.path.parts]
+        cs = sg.cond_spec(cond)
+        if cs is None or any(x is None and hasattr(p, "kw") for x, p in zip(psx, base.path.parts)):
+            continue
+        rt = RuleT(base.path, cond, base.cast)
+        rs = {"path": psx, "condition": cs}
+        if rt.cast:
+            rs["cast"] = {"str": rt.cast[0]}
+        elif g.r.random() < 0.15:
+            rs["cast"] = {}
+            rt.empty_cast = True
+        if g.r.random() < 0.3:
+            rs["doc"] = g.r.choice([" text ", {"description": "d", "examples": ["e"]}, ["a", "b"]])
+        if g.r.random() < 0.3:
+            rs = dict(reversed(list(rs.items())))        # the order of the entries means nothing
+        try:
+            api = rt.build()
+        except Exception:
+            continue
+        o = E.run_outcome(lambda: bool(v.Rule.from_spec(copy.deepcopy(rs)) == api))
+        if o == ("ok", False):
+            direct.append({"kind": "direct", "what": "Rule.from_spec(spec) is not equal to the API-built rule (nested path arguments)",
+                           "spec": jval(rs), "api": rt.descr()[:300]})
+        try:
+            casts = "[" + "; ".join(CASTS_N[c] for c in rt.cast[:1]) + "]"
+            rc = f"{{| rtn_path := {rt.path.coq()}; rtn_cond := {rt.cond.coq(enc_narg(Tags()))}; rtn_cast := {casts} |}}"
+            model = f"(run_rule_n_spec {E.enc_val(rs)} {rc} {E.enc_bool(rt.cast_given())})"
+            if len(model) < 9000:
+                ncases.append(Case({"kind": "nested-rule-spec", "spec": jval(rs), "api": rt.descr()[:300], "impl": repr(o)[:100], "coq": model[:9000]},
+                                   model, None, E.enc_res(o), o, o == ("ok", True), key=("nested-rule-spec", repr(rs)[:300])))
+        except (E.Unencodable, Exception):
+            pass
+    nk_bad, _, nnk, _, nerr = run_passes("c10n", NESTED_IMPORTS, ncases, model_ok, False)
+    k_bad = k_bad + [len(cases) + i for i in nk_bad]
+    cases = cases + ncases
+    nk += nnk
+    err = err or nerr
     res = {"evaluations": len(cases) + kinds["yaml"], "k_cases": nk, "o_cases": len(cases) + kinds["yaml"],
            "nontrivial": len({c.key for c in cases if c.nontrivial}),
            "rule": "part specs (long forms, dotted shorthands, labels), path specs with datum / multiplicity suffixes and aliases "
